@@ -125,7 +125,7 @@ MODELS = {
     'cosh': dict(npar=3, xdim=1, f=lambda p, x, m: p[0] * m.cosh(p[1] * (x[0] - p[2])),
                  box=[(0.5, 2.0), (0.3, 0.8), (2.0, 4.0)], xr=[(0.0, 6.0)]),
     'rational': dict(npar=3, xdim=1, f=lambda p, x, m: (p[0] + p[1] * x[0]) / (1.0 + p[2] * x[0]),
-                     box=[(0.5, 2.0), (0.3, 2.0), (0.2, 1.0)], xr=[(0.2, 5.0)]),
+                     box=[(0.5, 1.5), (2.5, 4.0), (0.2, 1.0)], xr=[(0.2, 5.0)]),
     'coshc': dict(npar=4, xdim=1, f=lambda p, x, m: p[0] * m.cosh(p[1] * (x[0] - p[2])) + p[3],
                   box=[(0.5, 2.0), (0.5, 0.9), (2.0, 4.0), (0.3, 2.0)], xr=[(0.0, 6.0)]),
     'twod': dict(npar=3, xdim=2, f=lambda p, x, m: p[0] * m.exp(-p[1] * x[0]) + p[2] * x[1],
@@ -316,11 +316,28 @@ def jets(values):
 
 def ift(chi, nz):
     """chi: Jet of the chi-square over w = (z, data), z = first nz variables (the minimised ones).
-    -> gradient w.r.t. z, Hessian H w.r.t. z, S = -H^-1 d(grad_z chi2)/d(data), Newton step H^-1 grad"""
+    -> gradient w.r.t. z, Hessian H w.r.t. z, S = -H^-1 d(grad_z chi2)/d(data), Newton step H^-1 grad,
+       condition number of the Jacobi-scaled Hessian (the solves are done in that scaling, so that variables of very
+       different magnitude - parameters next to abscissae with tiny errors - do not cost accuracy)"""
     g = chi.g[:nz]
     Hs = 0.5 * (chi.H + chi.H.T)
     H = Hs[:nz, :nz]
     M = Hs[:nz, nz:]
-    S = -np.linalg.solve(H, M)
-    newton = np.linalg.solve(H, g)
-    return g, H, S, newton
+    d = np.diag(H)
+    if not np.all(np.isfinite(H)) or np.any(d <= 0):
+        return g, H, None, None, float('inf')
+    D = 1.0 / np.sqrt(d)
+    Hsc = H * np.outer(D, D)
+    cond = float(np.linalg.cond(Hsc))
+    if not np.isfinite(cond) or cond > 1e13:
+        return g, H, None, None, cond
+    S = -(D[:, None] * np.linalg.solve(Hsc, D[:, None] * M))
+    newton = D * np.linalg.solve(Hsc, D * g)
+    return g, H, S, newton, cond
+
+
+def resolution(H):
+    """formal parameter resolution sqrt(2 (H^-1)_kk) of a chi-square with Hessian H"""
+    D = 1.0 / np.sqrt(np.diag(H))
+    Hi = np.linalg.inv(H * np.outer(D, D)) * np.outer(D, D)
+    return np.sqrt(2.0 * np.abs(np.diag(Hi)))
